@@ -61,3 +61,4 @@ def run(ctx, rep):
     NR.num_eq(rep, ctx, rid="C19-NUM-EQ", integers_only=True)
     NR.print_direct(rep, lib)
     nas_float_free(rep, ctx)
+    NR.ord_identity(rep, lib)
